@@ -724,7 +724,13 @@ where
     /// input, etc.
     #[track_caller]
     pub fn clear(&self) {
-        self.inner.try_with_value(|inner| inner.clear());
+        // the inner action is cloned out of the arena first: clearing notifies the
+        // subscribers of `value()` synchronously, and a subscriber that touches the arena
+        // (an `ImmediateEffect` whose re-run disposes of or creates arena items, e.g. by
+        // calling `action.value()`) must not find the arena locked
+        if let Some(inner) = self.inner.try_get_value() {
+            inner.clear();
+        }
     }
 }
 
